@@ -24,7 +24,7 @@ from .. import tlc
 from ..common import MachineryError, time_limit, ImplTimeout
 
 ALL_CTORS = ["And", "Or", "Not", "Implies", "Iff", "Plus", "Minus", "Times", "Div", "LE", "LT", "GE", "GT", "Equals", "FluentExp", "TRUE", "FALSE"]
-ALL_LITS = ["i2", "f2.0", "s2", "q4/2", "q1/2", "f0.5", "s0.5", "s1/2", "s-2/4", "i0", "f1.0", "i-3", "q6/4", "f1.5"]
+ALL_LITS = ["i2", "f2.0", "s2", "q4/2", "q1/2", "f0.5", "s0.5", "s1/2", "s-2/4", "i0", "f1.0", "i-3", "q6/4", "f1.5", "s2.0", "s4/2", "s20e-1", "s-3."]
 LEAF_TYPES = {"b": "bool", "c": "bool", "x": "int", "y": "real"}
 NARY = ["And", "Or", "Plus", "Times"]
 BIN = ["Implies", "Iff", "Minus", "Div", "LE", "LT", "GE", "GT", "Equals"]
@@ -479,14 +479,14 @@ def run(ctx):
     if q:
         plans = [
             # every call of the whole alphabet with direct fluent/literal arguments, made twice, then re-spelt
-            plan("respell", "respell", 0, ALL_CTORS, ["b", "x"], ["i2", "f2.0", "q4/2", "q1/2"], direct=True),
+            plan("respell", "respell", 0, ALL_CTORS, ["b", "x"], ["i2", "f2.0", "q4/2", "q1/2", "s2.0"], direct=True),
             # every history of 3 calls (arguments = earlier results) over two class-representative alphabets
             plan("seq3-A1", "seq", 3, A1, ["b", "x"], ["f2.0", "q1/2"]),
             plan("seq3-A2", "seq", 3, A2, ["b", "x"], ["s2", "q4/2"]),
         ]
     else:
         plans = [
-            plan("respell", "respell", 0, ALL_CTORS, ["b", "c", "x"], ["i2", "f2.0", "s2", "q4/2", "q1/2", "f0.5", "i0"], direct=True),
+            plan("respell", "respell", 0, ALL_CTORS, ["b", "c", "x"], ["i2", "f2.0", "s2", "q4/2", "q1/2", "f0.5", "i0", "s2.0", "s4/2", "s20e-1"], direct=True),
             plan("seq3-all", "seq", 3, ALL_CTORS, ["b", "c", "x"], ["i2", "f2.0", "q1/2"]),
             plan("seq3-ternary", "seq", 3, ["And", "Or", "Plus", "Times", "Not", "FluentExp"], ["b", "x"], ["f2.0"], maxar=3),
             plan("seq4", "seq", 4, ["And", "Not", "Plus", "GE", "FluentExp"], ["b", "x"], []),
@@ -525,7 +525,7 @@ def run(ctx):
     ctx.cov["rule"] = (
         "T1: exhaustive BFS of MCExprManager within the stated alphabets/depths, plus the as-written (CacheFirst) model "
         "refuted. T2: TLC-enumerated histories (%s) replayed on a fresh Environment each (%d histories); T3: %d seeded "
-        "random histories of 8-40 calls over all 17 constructors, 4 fluents and 14 literal spellings, 25%% verbatim "
+        "random histories of 8-40 calls over all 17 constructors, 4 fluents and 18 literal spellings, 25%% verbatim "
         "repetitions. evaluations = constructor calls bound to the implementation; a history is non-trivial when it repeats "
         "a call verbatim or contains a rejected call; unspecified = histories not judged to the end (a later call uses the "
         "result of a call the specification rejects, or a Div with a fluent-free non-constant/zero divisor) without any failure."
